@@ -114,6 +114,45 @@ func verifC16Evict() {
 	verifReach("end")
 }
 
+// C16 (write window, pooled batches): batches come from a pool (ingestion takes one per request,
+// replica/channel_manager releases it after the write); what a previous batch's rows were marked
+// with must not leak into the rows of the next batch that reuses the object.
+func verifC16EvictReuse() {
+	verifRowSpecs = nil
+	behind := verifRange("behind", 1, 7*86400000)
+	ahead := verifRange("ahead", 1, 7*86400000)
+	var now int64
+	if verifIsSymbolic() {
+		now = verifRange("now", 1600000000000, 4000000000000)
+		verifNowMs = now
+	} else {
+		_ = verifRange("now", 1600000000000, 4000000000000)
+		now = fasttime.UnixMilliseconds()
+	}
+	for round := 0; round < 2; round++ {
+		batch := NewBrokerBatchRows()
+		n := 1 + verifChoose("rows", 2)
+		ts := make([]int64, n)
+		for i := 0; i < n; i++ {
+			ts[i] = now + verifRange("offset", -8*86400000, 8*86400000)
+			verifAddRow(batch, 10*round+i, ts[i], uint64(i))
+		}
+		evicted := batch.EvictOutOfTimeRange(behind, ahead)
+		want := 0
+		for i := 0; i < n; i++ {
+			out := ts[i] < now-behind || ts[i] > now+ahead
+			if out {
+				want++
+			}
+			verifAssert(batch.Rows()[i].IsOutOfTimeRange == out, "a row of a reused batch is dropped exactly when it is outside the write window")
+			verifAssert((batch.Rows()[i].Size() == 0) == out, "a row contributes nothing exactly when it is outside the write window")
+		}
+		verifAssert(evicted == want, "evicted count")
+		batch.Release()
+	}
+	verifReach("end")
+}
+
 // C16 (routing): every row of a batch appears in exactly one (shard, family) group, the shard is
 // below the shard count and the group's family range contains the row's timestamp.
 func verifC16Partition() {
